@@ -262,7 +262,6 @@ class World:
         except AttributeError:
             pass
         Timezone.clear_cache()
-        ZONE_HISTORY["epoch"] += 1
         zoneinfo.ZoneInfo.clear_cache()
         # a fresh process has UTC in the weak cache (module constant keeps it alive)
         try:
@@ -282,8 +281,7 @@ class World:
 
     def reset(self, cfg):
         self.drop_caches()
-        ZONE_HISTORY.update(epoch=0, replay=None, k=0, last=0)
-        ZONE_HISTORY["log"].clear()
+        zone_history_reset()
         pendulum._LOCALE = "en"
         pendulum._WEEK_STARTS_AT = pendulum.WeekDay.MONDAY
         pendulum._WEEK_ENDS_AT = pendulum.WeekDay.SUNDAY
@@ -304,52 +302,64 @@ class World:
 
 
 # Whether two values of one named zone share their tzinfo *object* is decided by zoneinfo's cache,
-# i.e. by history (a clear_cache(), a restart).  Results may legitimately depend on it where no
-# property speaks (components of an interval between the two occurrences of one wall time), so the
-# history of the cache is part of what the reference evaluation replays: every lookup of a named
-# zone made during an op (Timezone.__new__ is wrapped below - from outside, /repo is untouched)
-# logs the cache generation ("epoch") it happened in (entry 0: the generation the op was invoked in); the reference evaluation clears the
-# cache before the k-th lookup iff the epoch changed there.  epoch: bumped by the nemesis clear and by restarts.  log: thread ident -> list.
-ZONE_HISTORY = {"epoch": 0, "log": {}, "replay": None, "k": 0, "last": 0}
+# i.e. by history (a clear_cache(), a restart, an eviction, what another thread looked up).  Results
+# may legitimately depend on it where no property speaks (components of an interval between the two
+# occurrences of one wall time), so the identity of every zone object is part of what the reference
+# evaluation replays.  Timezone.__new__ is wrapped (from outside - /repo is untouched): in the
+# simulation every lookup of a named zone - by the harness or by pendulum itself - logs the *token*
+# of the object it returned (tokens number the distinct objects of the run in order of first sight;
+# read off the returned object after the C-level lookup, so no pre-emption can falsify it); in a
+# reference evaluation the k-th lookup is made to return the object mapped to the k-th logged token
+# (in-process: the simulation's own object; cold process: one fresh object per token).
+ZONE_HISTORY = {"log": {}, "replay": None, "k": 0, "map": None, "tokens": {}, "objs": []}
 
 
 _tz_new_orig = Timezone.__new__
 
 
 def _tz_new(cls, key):
-    """every lookup of a named zone - by the harness or by pendulum itself (instance() of a foreign
-    tzinfo, in_tz('Name'), unpickling) - passes here: log its cache generation in the simulation,
-    replay the clears in a reference evaluation"""
     z = ZONE_HISTORY
-    if z["replay"] is not None:
+    rp = z["replay"]
+    if rp is not None:
         k = z["k"]
         z["k"] = k + 1
-        e = z["replay"][k] if k < len(z["replay"]) else z["last"]
-        if e != z["last"]:
-            Timezone.clear_cache()
-            z["last"] = e
-    else:
-        lst = z["log"].get(threading.get_ident())
-        if lst is not None:
-            lst.append(z["epoch"])
-    return _tz_new_orig(cls, key)
+        if k >= len(rp) or cls is not Timezone:
+            return _tz_new_orig(cls, key)
+        tok = rp[k]
+        want = z["map"].get(tok)
+        Timezone.clear_cache(only_keys=[key])
+        if want is not None and want.key == key:
+            Timezone._weak_cache[key] = want
+        obj = _tz_new_orig(cls, key)
+        if want is None:
+            z["map"][tok] = obj
+        return obj
+    obj = _tz_new_orig(cls, key)
+    tok = z["tokens"].get(id(obj))
+    if tok is None:
+        tok = z["tokens"][id(obj)] = len(z["objs"])
+        z["objs"].append(obj)        # kept alive for the run: ids are not reused
+    lst = z["log"].get(threading.get_ident())
+    if lst is not None:
+        lst.append(tok)
+    return obj
 
 
 Timezone.__new__ = staticmethod(_tz_new)
 
 
-def zone_replay(epochs, last=0):
-    """entry 0 is the epoch the op was invoked in (lookups made by pendulum itself see that cache)"""
-    ZONE_HISTORY.update(replay=list(epochs), k=1, last=last)
-    if epochs and epochs[0] != last:
-        Timezone.clear_cache()
-        ZONE_HISTORY["last"] = epochs[0]
+def zone_history_reset():
+    z = ZONE_HISTORY
+    z.update(replay=None, k=0, map=None, tokens={id(pendulum.UTC): 0}, objs=[pendulum.UTC])
+    z["log"].clear()
+
+
+def zone_replay(tokens, mapping):
+    ZONE_HISTORY.update(replay=list(tokens), k=0, map=mapping)
 
 
 def zone_replay_end():
-    last = ZONE_HISTORY["last"]
-    ZONE_HISTORY.update(replay=None, k=0)
-    return last
+    ZONE_HISTORY.update(replay=None, k=0, map=None)
 
 
 def zone_key(tz):
